@@ -1055,6 +1055,232 @@ mut("C02", "SILENT_generic_fold_try_to_bitvec", IV, """                let new_i
                 {
                     if let Ok(bitvec) = self.interval.end.bin_op(op, &rhs.interval.end) {""", [], "equivalent fold on the end bounds")
 
+# ---------------- round-2 additions
+OBJ = L + "analysis/pointer_inference/object/mod.rs"
+mut("C03", "object_is_unique_from_self", OBJ, "                is_unique: self.inner.is_unique && other.inner.is_unique,", "                is_unique: self.inner.is_unique,", ["R1|AbstractObject|is_unique"], "uniqueness flag of the merged object ignores other")
+mut("C03", "object_clone_and_patch_forgets_memory", OBJ, """            Inner {
+                pointer_targets: self
+                    .inner
+                    .pointer_targets
+                    .union(&other.inner.pointer_targets)
+                    .cloned()
+                    .collect(),
+                is_unique: self.inner.is_unique && other.inner.is_unique,
+                type_: same_or_none(&self.inner.type_, &other.inner.type_),
+                memory: self.inner.memory.merge(&other.inner.memory),
+            }
+            .into()""", """            let mut merged = self.clone();
+            let inner = Arc::make_mut(&mut merged.inner);
+            inner
+                .pointer_targets
+                .extend(other.inner.pointer_targets.iter().cloned());
+            inner.is_unique = self.inner.is_unique && other.inner.is_unique;
+            inner.type_ = same_or_none(&self.inner.type_, &other.inner.type_);
+            merged""", ["R1|AbstractObject|memory"], "clone-and-patch merge forgets the memory region")
+mut("C03", "SILENT_object_clone_and_patch", OBJ, """            Inner {
+                pointer_targets: self
+                    .inner
+                    .pointer_targets
+                    .union(&other.inner.pointer_targets)
+                    .cloned()
+                    .collect(),
+                is_unique: self.inner.is_unique && other.inner.is_unique,
+                type_: same_or_none(&self.inner.type_, &other.inner.type_),
+                memory: self.inner.memory.merge(&other.inner.memory),
+            }
+            .into()""", """            let mut merged = self.clone();
+            let inner = Arc::make_mut(&mut merged.inner);
+            inner
+                .pointer_targets
+                .extend(other.inner.pointer_targets.iter().cloned());
+            inner.is_unique = self.inner.is_unique && other.inner.is_unique;
+            inner.type_ = same_or_none(&self.inner.type_, &other.inner.type_);
+            inner.memory = self.inner.memory.merge(&other.inner.memory);
+            merged""", [], "correct clone-and-patch merge")
+mut("C04", "unsigned_ge_crossing_zero_cut", IV, """        } else if self.interval.start.sign_bit().to_bool() {
+            Ok(self)
+        } else {
+            self.add_signed_greater_equal_bound(bound)
+        }
+    }
+
+    fn add_not_equal_bound""", """        } else {
+            self.add_signed_greater_equal_bound(bound)
+        }
+    }
+
+    fn add_not_equal_bound""", ["R6|add_unsigned_greater_equal_bound|sign-cases"], "x >=u non-negative bound: negative members (large unsigned) removed")
+mut("C04", "unsigned_le_negative_bound_as_signed", IV, """            if self.interval.end.sign_bit().to_bool() {
+                self.add_signed_less_equal_bound(bound)
+            } else if self.interval.start.sign_bit().to_bool() {
+                Ok(self)
+            } else {""", """            if self.interval.start.sign_bit().to_bool() {
+                self.add_signed_less_equal_bound(bound)
+            } else {""", ["R6|add_unsigned_less_equal_bound|sign-cases"], "zero-crossing interval with negative bound refined with signed <=: non-negative members lost")
+mut("C04", "SILENT_unsigned_le_reordered", IV, """            if self.interval.end.sign_bit().to_bool() {
+                self.add_signed_less_equal_bound(bound)
+            } else if self.interval.start.sign_bit().to_bool() {
+                Ok(self)
+            } else {
+                self.add_signed_greater_equal_bound(&Bitvector::zero(bound.width()))
+            }""", """            if !self.interval.start.sign_bit().to_bool() {
+                self.add_signed_greater_equal_bound(&Bitvector::zero(bound.width()))
+            } else if !self.interval.end.sign_bit().to_bool() {
+                Ok(self)
+            } else {
+                self.add_signed_less_equal_bound(bound)
+            }""", [], "same case analysis in a different order")
+BVX = L + "intermediate_representation/bitvector.rs"
+mut("C01", "SILENT_sright_clamped", BVX, """            IntSRight => {
+                let shift_amount = rhs.try_to_u64().unwrap() as usize;
+                if shift_amount < self.width().to_usize() {
+                    Ok(self.clone().into_checked_ashr(shift_amount).unwrap())
+                } else {
+                    let signed_bitvec = apint::Int::from(self.clone());
+                    if signed_bitvec.is_negative() {
+                        let minus_one =
+                            Bitvector::zero(self.width()) - &Bitvector::one(self.width());
+                        Ok(minus_one)
+                    } else {
+                        Ok(Bitvector::zero(self.width()))
+                    }
+                }
+            }""", """            IntSRight => {
+                let shift_amount = std::cmp::min(
+                    rhs.try_to_u64().unwrap() as usize,
+                    self.width().to_usize() - 1,
+                );
+                Ok(self.clone().into_checked_ashr(shift_amount).unwrap())
+            }""", [], "arithmetic right shift with the amount clamped to width-1 is equivalent")
+mut("C01", "left_shift_clamped", BVX, """            IntLeft => {
+                let shift_amount = rhs.try_to_u64().unwrap() as usize;
+                if shift_amount < self.width().to_usize() {
+                    Ok(self.clone().into_checked_shl(shift_amount).unwrap())
+                } else {
+                    Ok(Bitvector::zero(self.width()))
+                }
+            }""", """            IntLeft => {
+                let shift_amount = std::cmp::min(
+                    rhs.try_to_u64().unwrap() as usize,
+                    self.width().to_usize() - 1,
+                );
+                Ok(self.clone().into_checked_shl(shift_amount).unwrap())
+            }""", ["R5|IntLeft|saturation-fill"], "left shift clamped to width-1 keeps the lowest bit")
+PRJ = L + "intermediate_representation/project.rs"
+mut("C09", "retarget_before_duplication", PRJ, """        make_block_to_sub_mapping_unique(self);
+        logs.append(
+            self.retarget_non_returning_calls_to_artificial_sink()
+                .as_mut(),
+        );
+""", """        logs.append(
+            self.retarget_non_returning_calls_to_artificial_sink()
+                .as_mut(),
+        );
+        make_block_to_sub_mapping_unique(self);
+""", ["R3|order|make_block_to_sub_mapping_unique<retarget"], "retarget pass before block duplication")
+AV = L + "analysis/dead_variable_elimination/alive_vars_computation.rs"
+mut("C10", "load_gen_before_kill_extend", AV, """            alive_variables.remove(var);
+            for input_var in address.input_vars() {
+                alive_variables.insert(input_var.clone());
+            }""", """            alive_variables.extend(address.input_vars().into_iter().cloned());
+            alive_variables.remove(var);""", ["R1|update_alive_vars_by_def|Load|kill-before-gen"], "gen (extend) before kill in the Load arm")
+mut("C10", "SILENT_load_extend_after_kill", AV, """            alive_variables.remove(var);
+            for input_var in address.input_vars() {
+                alive_variables.insert(input_var.clone());
+            }""", """            alive_variables.remove(var);
+            alive_variables.extend(address.input_vars().into_iter().cloned());""", [], "extend instead of insert loop, same order")
+SUBR = L + "pcode/subregister_substitution/mod.rs"
+mut("C11", "load_fold_drops_cast", SUBR, """                            let mut cast_to_base_def = self.input_iter.next().unwrap().clone();
+                            if let Def::Assign { value, .. } = &mut cast_to_base_def.term {
+                                value.substitute_input_var(var, &Expression::Var(temp_reg));
+                            } else {
+                                panic!()
+                            }
+                            self.output_defs.push(cast_to_base_def);""", """                            let cast_to_base_def = self.input_iter.next().unwrap();
+                            self.output_defs.push(Term {
+                                tid: cast_to_base_def.tid.clone(),
+                                term: Def::Assign {
+                                    var: base_register.into(),
+                                    value: Expression::Var(temp_reg),
+                                },
+                            });""", ["R4|replace_output_subregister|consumed-def-emitted"], "consumed cast def dropped after a load")
+SIM = L + "abstract_domain/interval/simple_interval.rs"
+mut("C02", "mul_singleton_fast_path", SIM, """        let min = signed_min(&val1.0, &signed_min(&val2.0, &signed_min(&val3.0, &val4.0)));
+        let max = signed_max(&val1.0, &signed_max(&val2.0, &signed_max(&val3.0, &val4.0)));""", """        let (min, max) = if rhs.start == rhs.end {
+            (val1.0.clone(), val3.0.clone())
+        } else {
+            (
+                signed_min(&val1.0, &signed_min(&val2.0, &signed_min(&val3.0, &val4.0))),
+                signed_max(&val1.0, &signed_max(&val2.0, &signed_max(&val3.0, &val4.0))),
+            )
+        };""", ["R3|signed_mul|start|alt0|corners"], "constant factor fast path ignores the sign of the constant")
+mut("C02", "SILENT_mul_singleton_minmax", SIM, """        let min = signed_min(&val1.0, &signed_min(&val2.0, &signed_min(&val3.0, &val4.0)));
+        let max = signed_max(&val1.0, &signed_max(&val2.0, &signed_max(&val3.0, &val4.0)));""", """        let (min, max) = if rhs.start == rhs.end {
+            (signed_min(&val1.0, &val3.0), signed_max(&val1.0, &val3.0))
+        } else {
+            (
+                signed_min(&val1.0, &signed_min(&val2.0, &signed_min(&val3.0, &val4.0))),
+                signed_max(&val1.0, &signed_max(&val2.0, &signed_max(&val3.0, &val4.0))),
+            )
+        };""", [], "correct constant-factor fast path")
+
+# ---------------- C12
+TOS = L + "intermediate_representation/expression/trivial_operation_substitution.rs"
+mut("C12", "xor_self_one_byte_zero", TOS, "                        *self = Expression::Const(Bitvector::zero(lhs.bytesize().into()));", "                        *self = Expression::Const(Bitvector::zero(ByteSize::new(1).into()));", ["R1|substitute_binop_for_lhs_equal_rhs|rewrite#1"], "a xor a = 0 of one byte for any operand size")
+mut("C12", "equal_self_operand_width", TOS, "                        *self = Expression::Const(Bitvector::one(ByteSize::new(1).into()));", "                        *self = Expression::Const(Bitvector::one(lhs.bytesize().into()));", ["R1|substitute_binop_for_lhs_equal_rhs|rewrite#2"], "a == a = 1 of operand width")
+mut("C12", "subpiece_of_subpiece_inner_size", TOS, """                            size: _,
+                            arg: inner_arg,
+                        } => {
+                            // Subpiece of subpiece can be simplified to a single subpiece operation.
+                            *self = Expression::Subpiece {
+                                low_byte: *low_byte + *inner_low_byte,
+                                size: *size,""", """                            size: inner_size,
+                            arg: inner_arg,
+                        } => {
+                            // Subpiece of subpiece can be simplified to a single subpiece operation.
+                            *self = Expression::Subpiece {
+                                low_byte: *low_byte + *inner_low_byte,
+                                size: *inner_size,""", ["R1|substitute_trivial_operations"], "merged subpiece takes the inner size")
+mut("C12", "cast_of_cast_inner_size", TOS, """                            op: inner_op,
+                            size: _,
+                            arg: inner_arg,
+                        } if *op == *inner_op => {
+                            // Merge two zero/sign-extension to one.
+                            *self = Expression::Cast {
+                                op: *op,
+                                size: *size,""", """                            op: inner_op,
+                            size: inner_size,
+                            arg: inner_arg,
+                        } if *op == *inner_op => {
+                            // Merge two zero/sign-extension to one.
+                            *self = Expression::Cast {
+                                op: *op,
+                                size: *inner_size,""", ["R1|substitute_trivial_operations"], "merged cast takes the inner size")
+mut("C12", "piece_lhs_simplified_without_size_test", TOS, "                            if *low_byte == rhs.bytesize() && *size == lhs.bytesize() {", "                            if *low_byte == rhs.bytesize() {", ["R1|substitute_trivial_operations"], "subpiece of piece replaced by lhs without comparing sizes")
+mut("C12", "zext_removed_without_size_test", TOS, "                        } if *low_byte == ByteSize::new(0) && *size == inner_arg.bytesize() => {", "                        } if *low_byte == ByteSize::new(0) => {", ["R1|substitute_trivial_operations"], "subpiece(zext(x)) -> x without size test")
+mut("C12", "bool_and_zero_returns_other", TOS, """                    // `a and 0 = 0` for booleans
+                    *self = Const(bitvec.clone());""", """                    // `a and 0 = 0` for booleans
+                    *self = Const(bitvec.clone().into_zero_extend(ByteSize::new(8)).unwrap());""", ["R1|substitute_and_xor_or_with_constant"], "boolean constant widened to 8 bytes")
+mut("C12", "piece_high_part_wrong_size", SUBR, """                low_byte: sub_size,
+                size: base_size - sub_size,""", """                low_byte: sub_size,
+                size: base_size - sub_lsb,""", ["R2|replace_output_subregister"], "high part of the base register has the wrong size in the lsb==0 branch")
+mut("C12", "piece_middle_branch_high_size", SUBR, """                    low_byte: sub_lsb + sub_size,
+                    size: base_size - (sub_lsb + sub_size),""", """                    low_byte: sub_lsb + sub_size,
+                    size: base_size - sub_size,""", ["R2|replace_output_subregister"], "high part too large in the middle placement branch")
+mut("C12", "piece_first_branch_guard_weakened", SUBR, "    if sub_register.lsb > ByteSize::new(0) && sub_register.lsb + sub_register.size == base_size {", "    if sub_register.lsb > ByteSize::new(0) && sub_register.lsb + sub_register.size >= base_size {", ["R2|replace_output_subregister"], "top-placement branch no longer implies lsb+size == base size")
+mut("C12", "input_subpiece_base_size", SUBR, """                let target_size = var.size;
+                let replacement_expr = create_subpiece_from_sub_register(""", """                let target_size = register.size;
+                let replacement_expr = create_subpiece_from_sub_register(""", ["R3|replace_input_subregister"], "sub-register input replaced by a SUBPIECE of the register-table size instead of the variable's size")
+mut("C12", "lift_cast_size_from_input", L + "pcode/term.rs", """                IrExpression::Cast {
+                    op: self.rhs.mnemonic.into(),
+                    size: target_var.size,""", """                IrExpression::Cast {
+                    op: self.rhs.mnemonic.into(),
+                    size: self.rhs.input0.as_ref().unwrap().size,""", ["R2|into_ir_def"], "lifted cast gets the size of its input instead of the output varnode")
+mut("C12", "SILENT_xor_self_rhs_size", TOS, "                        *self = Expression::Const(Bitvector::zero(lhs.bytesize().into()));", "                        *self = Expression::Const(Bitvector::zero(rhs.bytesize().into()));", [], "rhs has the same size as lhs for xor")
+mut("C12", "SILENT_piece_base_minus", SUBR, """                low_byte: sub_size,
+                size: base_size - sub_size,""", """                low_byte: sub_size,
+                size: base_size - sub_register.size,""", [], "same size through the field")
+
 for prop, name, spec in M:
     if name.startswith("SILENT_"):
         spec["silent"] = True
